@@ -18,13 +18,13 @@ Proof. exact step_stopped. Qed.
 Print Assumptions C17_stopped_iff_stop_requested.
 
 (* After shutdown has been requested (including the Stop step itself) no queue starts
-   another task: whatever the action — tick, cluster event, end of an execution — a queue
-   that is in a handler afterwards was in that very handler before. *)
+   another task: whatever the action — tick, cluster event, end of an execution, end of a
+   back-off delay — a queue that is in a handler afterwards was in that very handler before. *)
 Theorem C17_no_new_execution_after_stop : forall cfg s a q,
   Inv s -> In q (queues s) -> stopped s = true \/ a = Stop ->
   let q' := step_q cfg a (sched_on s) (unlocked s) (stopped s) (has_queue (queues s)) q in
-  is_running q' = true ->
-  q_running q' = q_running q /\ hd_error (q_items q') = hd_error (q_items q) /\ is_running q = true.
+  in_handler q' = true ->
+  q_running q' = q_running q /\ hd_error (q_items q') = hd_error (q_items q) /\ in_handler q = true.
 Proof. exact no_new_execution_after_stop. Qed.
 Print Assumptions C17_no_new_execution_after_stop.
 
@@ -33,9 +33,18 @@ Print Assumptions C17_no_new_execution_after_stop.
 Theorem C17_handler_return_stops_worker : forall cfg s q ok,
   Inv s -> In q (queues s) -> stopped s = true ->
   let q' := step_q cfg (Finish (q_name q) ok) (sched_on s) (unlocked s) (stopped s) (has_queue (queues s)) q in
-  is_running q' = false /\ q_items q' = q_items q.
+  in_handler q' = false /\ q_items q' = q_items q.
 Proof. exact handler_return_stops_worker. Qed.
 Print Assumptions C17_handler_return_stops_worker.
+
+(* a queue waiting in a back-off delay when shutdown is requested: the end of the delay
+   starts nothing, the queue keeps its tasks *)
+Theorem C17_stop_during_delay : forall cfg s q,
+  Inv s -> In q (queues s) -> stopped s = true -> q_delay q = true ->
+  let q' := step_q cfg (Elapse (q_name q)) (sched_on s) (unlocked s) (stopped s) (has_queue (queues s)) q in
+  is_running q' = false /\ q_items q' = q_items q.
+Proof. exact stop_during_delay. Qed.
+Print Assumptions C17_stop_during_delay.
 
 (* the states these theorems speak about are all the reachable ones, and queues evolve by step_q *)
 Theorem C17_reachable_invariant : forall cfg acts, Inv (exec cfg acts init).
@@ -57,3 +66,12 @@ Example C17_hyp_met :
   stopped s = true /\
   map (fun q => (q_name q, N.of_nat (length (q_items q)), is_running q)) (queues s) = [(0, 0, false); (1, 3, false)]%N.
 Proof. vm_compute. split; reflexivity. Qed.
+
+(* ... and shutdown while a queue waits in its back-off delay: the delay ends, nothing starts *)
+Example C17_delay_met :
+  let cfg := [mkHook 1 false None [] [mkSb 1 1 0 false 1]] in
+  let s1 := exec cfg [Boot; Tick 1; Tick 1; FinishWait 1; Stop]%N init in
+  let s2 := exec cfg [Elapse 1; Tick 1]%N s1 in
+  (exists q, In q (queues s1) /\ q_delay q = true) /\ stopped s1 = true /\
+  map (fun q => (q_name q, N.of_nat (length (q_items q)), is_running q)) (queues s2) = [(0, 0, false); (1, 3, false)]%N.
+Proof. vm_compute. split; [eexists; split; [right; left; reflexivity | reflexivity] | split; reflexivity]. Qed.
